@@ -12,6 +12,7 @@ REQUIRED = ["Interpolation.__init__", "Interpolation.set", "Interpolation._order
             "planetary_conjunction", "planet_star_conjunction", "planet_stars_in_line",
             "minimum_angular_separation"]
 THEOREMS = ["C12_through_points", "C12_newton_form", "C12_polynomial", "C12_derivative", "C12_refused",
+            "C12_newton_diff", "C12_constructor_3", "C12_constructor_4", "C12_duplicates",
             "C12_root_step", "C12_root_sound", "C12_grid_b64"]
 PROOF_TIMEOUT = {"quick": 1500, "thorough": 3000}
 EXHAUSTIVE = False
@@ -20,27 +21,30 @@ MANIFEST = {
     "text": ("T5/T1: root(): the while loop of the regenerated model (extracted from the generated text) keeps the bracket "
              "invariant - proved by induction on the loop fuel in the real-number instance for ANY table object (__call__/derivative "
              "as black boxes): whenever a float is returned it lies in the ordered, clamped [xl, xh] and the interpolant is <= tol "
-             "there (entry paths in-table / reversed / out-of-table / default); __call__/derivative of a symbolic three-point table "
-             "evaluated by pyrun: passes through the points, equals the Lagrange parabola and its derivative, ValueError outside; "
-             "binary64 kernel evaluation of root/minmax on an explicit grid (24 tables x all limit pairs) against an independent "
-             "Lagrange reference; bit-exact correspondence incl. the four Coordinates helpers; Fraction-exact search oracle."),
-    "technique": "fuel induction over the generated while loop + pyrun symbolic evaluation + field/lra/Coquelicot in the ideal "
-                 "instance; vm_compute reflection over a finite grid in binary64; generated model + bit-exact differential "
+             "there (entry paths in-table / reversed / out-of-table / default); the constructor evaluated symbolically on 3- and "
+             "4-point tables: every order of the points and every input form give the object with sorted abscissae and the divided "
+             "differences (the doubly recursive _newton_diff followed level by level), duplicates give ValueError; __call__/derivative "
+             "of a symbolic three-point table pass through the points, equal the Lagrange parabola and its derivative, ValueError "
+             "outside; binary64 kernel evaluation of root/minmax on an explicit grid (24 tables x all limit pairs) against an "
+             "independent Lagrange reference; bit-exact correspondence incl. the four Coordinates helpers; Fraction-exact search "
+             "oracle incl. copy/set call sequences."),
+    "technique": "fuel induction over the generated while loop + call-by-value symbolic evaluation (pyrun2) + field/lra/Coquelicot in "
+                 "the ideal instance; vm_compute reflection over a finite grid in binary64; generated model + bit-exact differential "
                  "correspondence; exact rational reference in the search",
     "design_ref": "8/C12",
 }
 EXPLANATION = ("root(): bracket invariant of the generated loop proved by induction on its fuel for an arbitrary table (ideal reals); "
-               "__call__/derivative evaluated symbolically on a three-point table and shown equal to the Lagrange parabola and its "
-               "derivative; root/minmax evaluated by the Coq kernel on an explicit binary64 grid; construction (divided differences, "
-               "ordering, input forms), duplicates, convergence within max_iter and the Coordinates helpers are covered by bit-exact "
-               "correspondence and the exact-rational search only.")
+               "constructor, _order_points, _compute_table, _newton_diff evaluated symbolically on 3- and 4-point tables (all point "
+               "orders, all input forms, duplicates); __call__/derivative on a symbolic three-point table equal the Lagrange parabola "
+               "and its derivative; root/minmax evaluated by the Coq kernel on an explicit binary64 grid; larger tables, convergence "
+               "within max_iter and the Coordinates helpers are covered by bit-exact correspondence and the exact-rational search.")
 CLAUSES = {
     "passes through every tabulated point": "proved [ideal, three-point table with symbolic abscissae/ordinates at least tol apart: C12_through_points]; n = 2..9 searched (exact equality) and bit-exact correspondence",
-    "reproduces polynomials of degree < n (relative 1e-9)": "proved [ideal, n = 3: __call__ = Horner form of the stored table (C12_newton_form), which for divided differences is the Lagrange parabola (C12_polynomial, field)]; that set()/_newton_diff store the divided differences is NOT proved symbolically (pyrun on the doubly recursive _newton_diff does not terminate in reasonable time) - covered by correspondence + search against exact Fraction Lagrange, n = 2..9",
+    "reproduces polynomials of degree < n (relative 1e-9)": "proved [ideal, n = 3: __call__ = Horner form of the stored table (C12_newton_form), which for divided differences is the Lagrange parabola (C12_polynomial, field); the constructor stores exactly the divided differences (C12_newton_diff n = 3, 4; C12_constructor_3/_4)]; n = 2..9 by correspondence + search against exact Fraction Lagrange",
     "derivative of that polynomial": "proved [ideal, n = 3: C12_derivative, Coquelicot is_derive]; n = 2..9 searched",
-    "independent of the order of the points and of the input form": "unproved (searched): _order_points/set on symbolic tables not evaluated (same obstacle); search compares every input form/permutation for identical _x, _y, values; correspondence is bit exact on shuffled tables in all forms",
+    "independent of the order of the points and of the input form": "proved [ideal, symbolic x1<x2<x3 and x1<x2<x3<x4 at least tol apart: all 6 resp. 24 orders x (two lists, two tuples, interleaved scalars) and the copy constructor give the identical object with sorted abscissae and the divided-difference table: C12_constructor_3, C12_constructor_4]; n = 2..9 searched; call sequences copy/set searched (key copy-shares-state)",
     "abscissae outside the table refused with ValueError": "proved [ideal, n = 3: C12_refused]; searched n = 2..9",
-    "duplicated abscissae refused with ValueError": "unproved (searched): exact and 5e-11-apart duplicates in two input forms; correspondence cases",
+    "duplicated abscissae refused with ValueError": "proved [ideal, three points, two-list form, any pair closer than tol: C12_duplicates]; other sizes/forms searched (exact and 5e-11-apart duplicates) + correspondence",
     "root(): returned abscissa inside [xl, xh] (ordered, clamped) with |interpolant| <= tol": "proved [ideal, ANY table: bracket invariant by induction on the fuel of the generated loop (C12_root_step) and the entry paths in-table / reversed / reversed+outside / clamped-low / default (C12_root_sound); __call__ and derivative are black boxes returning floats or raising; remaining entry combinations (xl = 0 with xh <> 0, clamped-high only) are not separate theorems]; proved [B64, explicit grid of 24 tables x all limit pairs: C12_grid_b64]",
     "root(): a value IS returned whenever the interpolant changes sign (convergence within max_iter)": "unproved (searched): not provable in general; holds on the B64 grid (C12_grid_b64: ValueError only without a clear sign change) and in the search on tables with |y| <= 1000",
     "minmax(): abscissa inside the interval where the derivative vanishes": "proved [B64, grid: C12_grid_b64 with the independent Lagrange derivative]; ideal: follows the root theorem applied to the derivative table (not stated separately); searched",
@@ -50,7 +54,9 @@ CLAUSES = {
 
 
 def proof_files(tier):
-    return ["C12_defs.v", "C12_ideal.v", "C12_root.v"] + ["C12_grid_%d.v" % k for k in range(NGRID)] + ["C12_main.v", "C12.v"]
+    return (["C12_defs.v", "C12_tac.v", "C12_nd.v", "C12_init3a.v", "C12_init3b.v", "C12_init3c.v", "C12_dup3.v",
+             "C12_init4a.v", "C12_init4b.v", "C12_init4c.v", "C12_ctor3.v", "C12_ctor4.v", "C12_ideal.v", "C12_root.v"]
+            + ["C12_grid_%d.v" % k for k in range(NGRID)] + ["C12_main.v", "C12.v"])
 
 NGRID = 8
 
